@@ -498,3 +498,36 @@ Proof.
             end; try discriminate; try (now apply F in H); try (inversion H; subst; reflexivity));
     try discriminate.
 Qed.
+
+(* ------------------------------------------------------------------ the caps after any history (C13) *)
+
+From Clvm Require Import Proofs.AllocBasics.
+
+Theorem caps_after_history fx limit h st : 1 <= limit -> Forall wf_op h ->
+  a_final fx limit h = Some st -> a_dead st = false -> (fx = true \/ a_f2 st = false) ->
+  atom_count (a_al st) <= 62500000 /\ pair_count (a_al st) <= 62500000 /\
+  heap_size (a_al st) <= heap_limit (a_al st) /\ heap_limit (a_al st) <= 4294967295.
+Proof.
+  intros Hl Hwf. unfold a_final. destruct (a_init limit) as [st0|e] eqn:E; [|discriminate].
+  intros H Hd Hf. apply Some_inj in H. subst st.
+  destruct (a_init_inv _ _ Hl E) as [I0 L0].
+  destruct (ainv_run fx h st0 I0 Hwf Hd Hf) as [[_ [_ (Q1 & Q2 & Q3 & Q4)] _ _] _].
+  unfold MAX_NUM_ATOMS, MAX_NUM_PAIRS, U32_MAX in *. repeat split; assumption.
+Qed.
+
+Lemma f2_cap_refuted :
+  exists limit h st, 1 <= limit /\ Forall wf_op h /\ a_final false limit h = Some st /\ a_dead st = false /\
+                     heap_limit (a_al st) < heap_size (a_al st).
+Proof.
+  exists 3, f2_history. eexists. split; [lia|]. split; [repeat constructor|].
+  split; [vm_compute; reflexivity|]. split; [reflexivity|]. vm_compute. reflexivity.
+Qed.
+
+Theorem immutable_run fx h st : AINV st -> Forall wf_op h ->
+  a_dead (fst (a_run fx st h)) = false -> (fx = true \/ a_f2 (fst (a_run fx st h)) = false) ->
+  exists m, m <= nlen (a_nodes st) /\
+    (exists extra, a_nodes (fst (a_run fx st h)) = take_N m (a_nodes st) ++ extra) /\
+    forall n, In n (take_N m (a_nodes st)) ->
+      vnode (hp (a_al (fst (a_run fx st h)))) n /\
+      denote (hp (a_al (fst (a_run fx st h)))) n = denote (hp (a_al st)) n.
+Proof. intros Hi Hw Hd Hf. exact (proj2 (ainv_run fx h st Hi Hw Hd Hf)). Qed.
